@@ -685,7 +685,11 @@ def oracle_c03(tr, sc):
             if by_budget:
                 res.probe('stopped_by_maxiter')
             continue
-        if r > restol + margin:
+        if rec['iter'] == 0 and cfg['controller'].get('predict_type') is None and rec['reported'] <= restol:
+            # finished at iteration 0 on the strength of the residual of the unswept initial guess (for 'copy'/'zero' guesses not
+            # even the defect of the node values): the zero-sweep root cause, whatever the true defect is
+            V('stopped_without_sweep', 'CheckConvergence.check_convergence', f"block {rec['block']} slot {rec['slot']} declared finished at iteration 0 without any sweep (reported residual {rec['reported']!r} <= restol {restol!r}, true defect {r!r})", kind='zero_sweeps_iter0')
+        elif r > restol + margin:
             V('stopped_above_tolerance', 'it_check', f"block {rec['block']} slot {rec['slot']} finished at iter {rec['iter']} < maxiter {K} with defect {r!r} > restol {restol!r} and no force flag")
         elif r <= restol - margin:
             res.probe('stopped_by_residual')
